@@ -2,11 +2,17 @@
    with repr() can never escape its quotes.
    Only statements; every proof is `exact <lemma>` to a lemma proved in Comp/PyReprSound.v.
    `printable` (str.isprintable per code point, i.e. the Unicode database) is universally
-   quantified: nothing is assumed about it.  valid s = every code point of s is < 0x110000. *)
+   quantified; the only fact assumed about it (as an explicit premise, and checked against the
+   running interpreter on every run) is that the 2048 surrogate code points are not printable:
+     surrogates_unprintable printable := forall c, is_surrogate c = true -> printable c = false.
+   valid s = every code point of s is < 0x110000. *)
 From Coq Require Import List NArith Bool.
 Import ListNotations.
 From YP Require Import Base.Str Comp.PyRepr Comp.PyLex Comp.PyReprSound.
 Local Open Scope N_scope.
+
+Definition surrogates_unprintable (printable : N -> bool) : Prop :=
+  forall c, is_surrogate c = true -> printable c = false.
 
 (* The Python lexer, started at a literal written by repr and followed by ANY text, consumes
    exactly the literal and denotes exactly s: nothing in s can close the quote, open an
@@ -14,7 +20,7 @@ Local Open Scope N_scope.
    no_triple s rest := s <> [] \/ hd_error rest <> Some 39: Python reads three quotes in a row
    as the opening of a triple-quoted literal, so the empty literal must not be followed directly
    by a single quote (the emitter follows every literal by `)` `,` or `]`). *)
-Theorem C12R_repr_cannot_escape : forall printable s rest,
+Theorem C12R_repr_cannot_escape : forall printable, surrogates_unprintable printable -> forall s rest,
   valid s -> no_triple s rest ->
   py_lex_string (py_repr printable s ++ rest) = Some (s, rest).
 Proof. exact repr_cannot_escape. Qed.
@@ -28,14 +34,14 @@ Proof. exact repr_cannot_escape_unconditional_refuted. Qed.
 Print Assumptions C12R_repr_cannot_escape_unconditional_refuted.
 
 (* once the tokenizer has decided that the literal is a short one, no side condition *)
-Theorem C12R_repr_cannot_escape_short : forall printable s rest,
+Theorem C12R_repr_cannot_escape_short : forall printable, surrogates_unprintable printable -> forall s rest,
   valid s -> py_lex_short (py_repr printable s ++ rest) = Some (s, rest).
 Proof. exact repr_cannot_escape_short. Qed.
 Print Assumptions C12R_repr_cannot_escape_short.
 
 (* the form used by the emitter proofs: the literal is followed by some character other than
    a single quote *)
-Theorem C12R_repr_cannot_escape_before : forall printable c s rest,
+Theorem C12R_repr_cannot_escape_before : forall printable, surrogates_unprintable printable -> forall c s rest,
   valid s -> c <> SQ ->
   py_lex_string (py_repr printable s ++ c :: rest) = Some (s, c :: rest).
 Proof. exact repr_cannot_escape_before. Qed.
@@ -43,7 +49,7 @@ Print Assumptions C12R_repr_cannot_escape_before.
 
 (* no literal is a proper prefix of another literal followed by something: the end of a literal
    is determined by the literal alone; in particular repr is injective *)
-Theorem C12R_repr_prefix_free : forall printable s1 s2 r1 r2,
+Theorem C12R_repr_prefix_free : forall printable, surrogates_unprintable printable -> forall s1 s2 r1 r2,
   valid s1 -> valid s2 ->
   py_repr printable s1 ++ r1 = py_repr printable s2 ++ r2 -> s1 = s2 /\ r1 = r2.
 Proof. exact repr_prefix_free. Qed.
@@ -98,12 +104,13 @@ Print Assumptions C12R_lex_consumes_prefix.
 Example C12R_nonvacuous :
   let s := [39; 41; 34; 92; 10; 0; 8232; 1114111] in
   let rest := [41; 39] in
-  valid s /\ no_triple s rest /\
+  surrogates_unprintable (fun _ => false) /\ valid s /\ no_triple s rest /\
   py_repr (fun _ => false) s = [39; 92;39; 41; 34; 92;92; 92;110; 92;120;48;48; 92;117;50;48;50;56;
                                 92;85;48;48;49;48;102;102;102;102; 39] /\
   py_lex_string (py_repr (fun _ => false) s ++ rest) = Some (s, rest).
 Proof.
-  cbv zeta. split; [|split; [|split]].
+  cbv zeta. split; [|split; [|split; [|split]]].
+  - intros c _. reflexivity.
   - repeat constructor.
   - left. discriminate.
   - vm_compute. reflexivity.
